@@ -827,4 +827,237 @@ theorem step_invariant (s : State) (op : Op) (hs : ReposSorted s) (hc : InvClean
       · exact hc x h
       · exact he x h
 
+/-! ### What the node's inventory announcements list -/
+
+/-- An inventory announcement of the local node lists only listed repositories (of the state before or
+after the step). -/
+def InvWritesListed (s s' : State) (ws : List Write) : Prop :=
+  ∀ w ∈ ws, w.id.node = 0 → w.id.kind = .inv → ∀ x ∈ w.inv, x ∈ listed s ∨ x ∈ listed s'
+
+theorem announceInventory_invWrites (s : State) :
+    ∀ w ∈ (announceInventory s).2, ∀ x ∈ w.inv, x ∈ s.inv := by
+  unfold announceInventory
+  split
+  · simp
+  · intro w hw x hx
+    simp only [List.mem_map] at hw
+    obtain ⟨_, _, rfl⟩ := hw
+    exact hx
+
+@[simp] theorem announceInventory_inv (s : State) : (announceInventory s).1.inv = s.inv := by
+  unfold announceInventory; split <;> rfl
+
+theorem refreshInventory_invWrites (s : State) (t : Nat) :
+    ∀ w ∈ (refreshInventory s t).2.writes, ∀ x ∈ w.inv, x ∈ (refreshInventory s t).1.inv := by
+  unfold refreshInventory
+  intro w hw x hx
+  simp only [announceInventory_inv]
+  exact announceInventory_invWrites _ w hw x hx
+
+theorem addInventory_invWrites (s : State) (rid : Nat) :
+    ∀ w ∈ (addInventory s rid).2.writes, ∀ x ∈ w.inv, x ∈ (addInventory s rid).1.inv := by
+  unfold addInventory
+  dsimp only
+  split
+  · simp
+  · exact refreshInventory_invWrites _ _
+
+theorem removeInventory_invWrites (s : State) (rid : Nat) :
+    ∀ w ∈ (removeInventory s rid).2.writes, ∀ x ∈ w.inv, x ∈ (removeInventory s rid).1.inv := by
+  unfold removeInventory
+  dsimp only
+  split
+  · exact refreshInventory_invWrites _ _
+  · simp
+
+theorem announceRefs_noInv (s : State) (r doc : Repo) :
+    ∀ w ∈ (announceRefs s r doc).2.writes, w.id.kind ≠ .inv := by
+  unfold announceRefs
+  dsimp only
+  split
+  · simp
+  · intro w hw
+    simp only [List.mem_map] at hw
+    obtain ⟨_, _, rfl⟩ := hw
+    simp
+
+@[simp] theorem announceRefs_inv (s : State) (r doc : Repo) : (announceRefs s r doc).1.inv = s.inv := by
+  unfold announceRefs; dsimp only; split <;> rfl
+
+/-- **Own inventory announcements list only listed repositories** — for every state and operation. -/
+theorem own_inventory_writes_listed (s : State) (op : Op) :
+    InvWritesListed s (step s op).1 (step s op).2.writes := by
+  intro w hw h0 hk x hx
+  by_cases h1 : ∃ p a, op = .recv p a
+  · obtain ⟨p, a, rfl⟩ := h1
+    obtain ⟨w1, _, hA, _⟩ := recv_writes_spec s p a w hw
+    exact absurd (w1 ▸ h0) hA.2.2.1
+  by_cases h2 : ∃ p sb, op = .subscribe p sb
+  · obtain ⟨p, sb, rfl⟩ := h2
+    simp only [step, subscribe] at hw
+    split at hw
+    · simp at hw
+    · simp only [List.mem_map] at hw
+      obtain ⟨row, hrow, rfl⟩ := hw
+      unfold replayRows at hrow
+      split at hrow
+      · simp at hrow
+      · have hmem := (List.mem_filter.mp hrow).1
+        exact Or.inl (listed_payload (mem_ownInvPayload.mpr ⟨row, hmem, h0, hk, hx⟩))
+  by_cases h3 : ∃ dt, op = .elapse dt
+  · obtain ⟨dt, rfl⟩ := h3
+    rcases wake_writes_spec _ w hw with ⟨_, hn, _⟩ | _
+    · exact absurd h0 hn
+    · simp only [step, wake] at hw
+      rcases List.mem_append.mp hw with h | h
+      · unfold gossipTask at h
+        split at h
+        · dsimp only [relayAnnouncements] at h
+          simp only [List.mem_flatMap, List.mem_filter, Bool.and_eq_true, bne_iff_ne, ne_eq] at h
+          obtain ⟨r, ⟨_, _, hnode⟩, hwr⟩ := h
+          obtain ⟨w1, _⟩ := relayWrites_spec hwr
+          exact absurd (w1 ▸ h0) hnode
+        · simp at h
+      · unfold announceTask at h
+        split at h
+        · have := announceInventory_invWrites _ w h x hx
+          have hinv : (gossipTask { s with clock := s.clock + dt }).1.inv = s.inv := by
+            unfold gossipTask; split <;> rfl
+          exact Or.inl (listed_inv (hinv ▸ this))
+        · simp at h
+  cases op with
+  | recv p a => exact absurd ⟨p, a, rfl⟩ h1
+  | subscribe p sb => exact absurd ⟨p, sb, rfl⟩ h2
+  | elapse dt => exact absurd ⟨dt, rfl⟩ h3
+  | connect p =>
+    simp only [step, connect, List.mem_cons, List.mem_singleton, List.not_mem_nil, or_false] at hw
+    rcases hw with rfl | rfl
+    · simp at hk
+    · exact Or.inl (listed_inv hx)
+  | disconnect p => simp [step, disconnect] at hw
+  | tick now => simp [step] at hw
+  | setClock t => simp [step] at hw
+  | announceRefs rid =>
+    simp only [step, cmdAnnounceRefs] at hw
+    split at hw
+    · simp at hw
+    · exact absurd hk (announceRefs_noInv _ _ _ w hw)
+  | addInventory rid => exact Or.inr (listed_inv (addInventory_invWrites s rid w hw x hx))
+  | announceInventory => exact Or.inl (listed_inv (announceInventory_invWrites s w hw x hx))
+  | seed rid => simp [step, seed] at hw
+  | unseed rid =>
+    simp only [step, unseed] at hw ⊢
+    split at hw
+    · rename_i hsd
+      simp only [hsd, if_true]
+      exact Or.inr (listed_inv (removeInventory_invWrites _ rid w hw x hx))
+    · simp at hw
+  | fetched rid p clone upd =>
+    simp only [step, fetched] at hw ⊢
+    split at hw
+    · simp at hw
+    · rename_i hsess
+      simp only [hsess, if_false, Bool.false_eq_true]
+      split at hw
+      · simp at hw
+      · rename_i r hr
+        simp only [hr]
+        simp only [appendOut, List.mem_append] at hw
+        rcases hw with h | h
+        · unfold fetchedInventory at h
+          split at h
+          · rename_i hc
+            refine Or.inr (listed_inv ?_)
+            unfold fetchedRefs
+            have := addInventory_invWrites _ _ w h x hx
+            unfold fetchedInventory
+            simp only [hc, if_true]
+            split
+            · simpa using this
+            · exact this
+          · simp at h
+        · unfold fetchedRefs at h
+          split at h
+          · exact absurd hk (announceRefs_noInv _ _ _ w h)
+          · simp at h
+  | restart => simp [step, restart] at hw
+  | setRepo r => simp [step] at hw
+  | knowNode nid ts => simp [step] at hw
+
+theorem step_repos_or_silent (s : State) (op : Op) (hs : ReposSorted s) (hok : OpOk s op) :
+    (step s op).1.repos = s.repos ∨ (step s op).2.writes = [] := by
+  by_cases hset : ∃ r, op = .setRepo r
+  · obtain ⟨r, rfl⟩ := hset
+    exact Or.inr rfl
+  · obtain ⟨_, l, _⟩ := step_lists s op hs hok (fun r h => hset ⟨r, h⟩)
+    exact Or.inl l.1
+
+/-- **C11, inventory announcements (`_partial`).** Along any run that starts in a state listing no private
+repository (e.g. `init`), in which no *listed* repository is made private, `AddInventory` is only issued for
+public repositories and peers are not the local node (`OpOk`): every inventory announcement of the node
+that is written — on connect, by `announce_inventory`, refreshed after `add_inventory` / `unseed` /
+a clone, or replayed from the gossip store — lists public repositories only. -/
+theorem inventory_excludes_private_partial (s : State) (ops : List Op)
+    (hs : ReposSorted s) (hc : InvClean s)
+    (hok : ∀ i op, ops[i]? = some op → OpOk (stateAt s ops i) op) :
+    ∀ j op w, ops[j]? = some op → w ∈ (step (stateAt s ops j) op).2.writes →
+      w.id.node = 0 → w.id.kind = .inv → ∀ x ∈ w.inv, isPrivate (stateAt s ops j) x = false := by
+  induction ops generalizing s with
+  | nil => intro j op w hj; simp at hj
+  | cons o os ih =>
+    intro j op w hj hw h0 hk x hx
+    have hok0 : OpOk s o := by
+      have := hok 0 o (by simp)
+      cases os <;> simpa [stateAt] using this
+    obtain ⟨hs', hc'⟩ := step_invariant s o hs hc hok0
+    cases j with
+    | zero =>
+      simp only [List.getElem?_cons_zero, Option.some.injEq] at hj
+      subst hj
+      have hst : stateAt s (o :: os) 0 = s := by cases os <;> rfl
+      rw [hst] at hw ⊢
+      rcases own_inventory_writes_listed s o w hw h0 hk x hx with h | h
+      · exact hc x h
+      · rcases step_repos_or_silent s o hs hok0 with hr | hr
+        · rw [← isPrivate_congr hr]; exact hc' x h
+        · rw [hr] at hw; simp at hw
+    | succ j =>
+      simp only [List.getElem?_cons_succ] at hj
+      simp only [stateAt] at hw ⊢
+      refine ih (step s o).1 hs' hc' ?_ j op w hj hw h0 hk x hx
+      intro i op' hi
+      have := hok (i + 1) op' (by simpa using hi)
+      simpa [stateAt] using this
+
+/-- The initial state satisfies the hypotheses. -/
+theorem init_clean (t0 : Nat) (b : Bool) : ReposSorted (init t0 b) ∧ InvClean (init t0 b) := by
+  refine ⟨by simp [ReposSorted, init], ?_⟩
+  intro x hx
+  simp [listed, init, localInventory, ownInvPayload] at hx
+
+/-- The full statement — *no inventory announcement of the node lists a private repository* — is false of
+the current code once visibility changes are allowed: repository 0 is public, seeded and added to the
+inventory; it is then made private (identity document updated in storage); nothing tells the service:
+the next peer to connect is sent the cached inventory, which still lists it. -/
+def madePrivateTrace : List Op :=
+  [.setRepo ⟨0, true, false, [0], [], none⟩, .seed 0, .addInventory 0,
+   .setRepo ⟨0, true, true, [0], [], none⟩, .connect 3]
+
+theorem inventory_excludes_private_counterexample :
+    let s := finalState (init 1000000 true) madePrivateTrace.dropLast
+    (step s (.connect 3)).2.writes.any
+      (fun w => w.id.node == 0 && w.id.kind == .inv && w.inv.any (fun x => isPrivate s x)) = true := by
+  decide
+
+/-- …and `OpOk` is exactly what that trace violates (the repository is listed when it is made private). -/
+example :
+    let s := finalState (init 1000000 true) (madePrivateTrace.take 3)
+    (0 ∈ listed s) = true := by decide
+
+/-- Non-vacuity: after `initialize` (`restart`) and the next announcement the listing is clean again. -/
+example :
+    let s := finalState (init 1000000 true)
+      (madePrivateTrace.dropLast ++ [.restart, .elapse 3600000])
+    (step s (.connect 3)).2.writes.map (·.inv) = [[], []] := by decide
+
 end HeartwoodModel.Gossip
